@@ -1080,7 +1080,9 @@ pub fn event_end(sim: &Sim, _key: usize) {
                     if s.inserted && !s.indeterminate {
                         match deferred {
                             Some(Deferred::Disable) => {
-                                s.exp[2] += 1;
+                                if s.enabled {
+                                    s.exp[2] += 1;
+                                }
                                 model_disabled(s);
                                 sim.probe("deferred_request_applied_after_error");
                             }
@@ -1110,7 +1112,14 @@ pub fn event_end(sim: &Sim, _key: usize) {
                     match fin {
                         PostAction::Reregister => s.exp[1] += 1,
                         PostAction::Disable => {
-                            s.exp[2] += 1;
+                            // (a source somebody else disabled earlier in this dispatch is not
+                            // unregistered again)
+                            if s.enabled || !s.inserted && s.enabled_when_removed {
+                                s.exp[2] += 1;
+                                if !s.inserted {
+                                    s.enabled_when_removed = false;
+                                }
+                            }
                             if !s.inserted {
                                 if let K::Trans(t) = &mut s.k {
                                     // disabled and removed in one event: the loop unregisters the
@@ -1134,6 +1143,7 @@ pub fn event_end(sim: &Sim, _key: usize) {
                                 model_disabled(s);
                             }
                             PostAction::Remove => {
+                                s.enabled_when_removed = s.enabled;
                                 s.inserted = false;
                                 s.enabled = false;
                                 remove_key = s.reg_key;
@@ -1192,7 +1202,7 @@ pub fn event_end(sim: &Sim, _key: usize) {
         // a source that is gone by the end of its event (removed itself, or asked for
         // removal) is unregistered exactly once by the loop
         if let Some(s) = st.srcs.get_mut(&id) {
-            if !s.inserted && (s.removed_in_own_cb || remove_key.is_some()) {
+            if !s.inserted && (s.removed_in_own_cb || remove_key.is_some()) && std::mem::replace(&mut s.enabled_when_removed, false) {
                 s.exp[2] += 1;
             }
             if s.sh.last_ret.get().is_none() && matches!(s.k, K::Failed) {
